@@ -274,7 +274,11 @@ CleanerResult(p, base, r, newpc) ==
         \* another cleaner owns the files right now, or has finished its cleanup (did not crash while owning)
         others == {c \in Cleaners \ {p} : ps[c].pc \in {"owner", "drop", "done"}}
         b1 == IF r = "Ok" /\ ~gcrashed THEN {SigReclaim(GPhase)} ELSE {}
-        b2 == IF r = "Ok" /\ others # {} THEN {SigExclusive("second_owner")} ELSE {}
+        \* how the second owner got in: through the already unlinked owner_lock file with the non-blocking lock
+        \* (the known race), or in any other way (separate signatures)
+        how == IF CleanerAcquire[Len(CleanerAcquire)].op # "lock" THEN "second_owner_blocking_lock"
+               ELSE IF exists["owner_lock"] THEN "second_owner_owner_lock_linked" ELSE "second_owner"
+        b2 == IF r = "Ok" /\ others # {} THEN {SigExclusive(how)} ELSE {}
         b3 == IF alone /\ ~(r = "Ok" \/ (r = "DoesNotExist" /\ nofile)) THEN {SigUnrecoverable(r, FilesLeft)} ELSE {}
         b4 == IF base.qdead /\ gcrashphase = "running"
                  /\ r \notin {"Ok", "OwnedByAnother", "BeingCleanedUp", "DoesNotExist"} THEN {SigLoser(r)} ELSE {}
@@ -416,7 +420,8 @@ DeadIsDetected == Kind("undetected") = {}
 \* (a second success is legitimate only as the recovery after the first owner crashed)
 ExclusiveCleanup == /\ Kind("exclusive") = {}
                     /\ Kind("loser") = {}
-                    /\ (SigExclusive("second_owner") \notin Excused /\ ~ExcuseAll =>
+                    /\ (\A h \in {"second_owner", "second_owner_blocking_lock", "second_owner_owner_lock_linked"} :
+                              SigExclusive(h) \notin Excused) /\ ~ExcuseAll =>
                           /\ Cardinality({c \in Cleaners : ps[c].pc \in {"owner", "drop"}}) <= 1
                           /\ Cardinality({c \in Cleaners : ps[c].cres = "Ok"})
                                 <= 1 + Cardinality({c \in Cleaners : ps[c].pc \in {"x_owner", "x_drop"}}))
